@@ -478,6 +478,77 @@ pub fn c04_native<G: AffineRepr + 'static>(case: &C04Case, seed: u64) -> Vec<(St
             }
         }
     }
+    // a polynomial commitment and the published blinding scalar: T_k += delta*Bblind, t_x_blinding += x^k delta with the
+    // honest run's x -- cancels in the combined check for EVERY r unless x depends on T_k
+    if let Some(x) = chal(b"x", 0) {
+        let delta = G::ScalarField::from(seed + 7);
+        let (pts, scs, ipp) = proof.verif_parts();
+        for (slot, deg) in [(6usize, 1u64), (7, 3), (8, 4), (9, 5), (10, 6)] {
+            let mut xk = G::ScalarField::one();
+            for _ in 0..deg {
+                xk *= x;
+            }
+            let mut p2 = pts;
+            p2[slot] = (pts[slot].into_group() + pc.B_blinding * delta).into_affine();
+            let forged = R1CSProof::verif_from_parts(p2, [scs[0], scs[1] + xk * delta, scs[2]], ipp.clone());
+            out.push((format!("{} shifted by delta*Bblind together with t_x_blinding shifted by x^{} delta (the honest run's x): rejected", POINT_NAMES[slot], deg), !verify(&forged)));
+            // the same on the value base with t_x
+            let mut p3 = pts;
+            p3[slot] = (pts[slot].into_group() + pc.B * delta).into_affine();
+            let forged = R1CSProof::verif_from_parts(p3, [scs[0] + xk * delta, scs[1], scs[2]], ipp.clone());
+            out.push((format!("{} shifted by delta*B together with t_x shifted by x^{} delta (the honest run's x): rejected", POINT_NAMES[slot], deg), !verify(&forged)));
+        }
+    }
+    out
+}
+
+/// C04 on a cofactor curve: every group element of an accepted proof offset by a point of small order (the altered
+/// object is a different proof object).  On a tree whose challenges bind the full encoding of every element each such
+/// alteration changes a challenge and is rejected; if the transcript only sees the element up to small-order components
+/// the alteration survives whenever the element's protocol scalar annihilates the offset (probability 1/ord each).
+pub fn c04_torsion_native<G: AffineRepr + 'static>(seed: u64, torsion: &[G]) -> Vec<(String, bool)> {
+    let mut out = vec![];
+    use crate::r1cs::Op::*;
+    for shape in [Shape::new("two_gates", &[Commit, AllocMul, Mul, Con], &[]), Shape::new("two_phase_1_2", &[Commit, AllocMul, Con], &[&[Chal, AllocMul, Mul, Con]])] {
+        let pad = shape.padded();
+        let pc = pc_for::<G>(&shape.name, seed);
+        let bp = BulletproofGens::<G>::new(pad, 1);
+        let shr = new_shared::<G>(&shape, &Default::default(), Box::new(PlainVals::<G::ScalarField>::new(Default::default(), seed)));
+        let (proof, _) = prove_shape(&shape, &shr, &pc, &bp, seed);
+        let proof = match proof {
+            Ok(p) => p,
+            Err(_) => {
+                out.push(("prove succeeds".into(), false));
+                continue;
+            }
+        };
+        let mut verify = |p: &R1CSProof<G>| -> bool {
+            rewind_for_verifier(&shr);
+            let mut vt = new_verifier_transcript(&shape);
+            build_verifier(&shape, &shr, &mut vt).verify(p, &pc, &bp).is_ok()
+        };
+        out.push((format!("{}: untouched proof accepted", shape.name), verify(&proof)));
+        let (pts, scs, ipp) = proof.verif_parts();
+        let (l, r, a, b) = ipp.verif_parts();
+        let mut accepted = vec![];
+        let mut tried = 0;
+        for (ti, t) in torsion.iter().enumerate() {
+            for slot in 0..(11 + l.len() + r.len()) {
+                let (mut p2, mut l2, mut r2) = (pts, l.to_vec(), r.to_vec());
+                let target: &mut G = if slot < 11 { &mut p2[slot] } else if slot < 11 + l.len() { &mut l2[slot - 11] } else { &mut r2[slot - 11 - l.len()] };
+                if target.is_zero() {
+                    continue;
+                }
+                *target = (target.into_group() + t.into_group()).into_affine();
+                let altered = R1CSProof::verif_from_parts(p2, scs, InnerProductProof::verif_from_parts(l2, r2, a, b));
+                tried += 1;
+                if verify(&altered) {
+                    accepted.push(format!("slot {} + small-order point #{}", slot, ti));
+                }
+            }
+        }
+        out.push((format!("{}: {} alterations of one group element by a point of small order are all rejected (accepted: {:?})", shape.name, tried, &accepted[..accepted.len().min(4)]), accepted.is_empty()));
+    }
     out
 }
 
